@@ -50,6 +50,7 @@ theorem reprRoundSum_far (B : Nat) (hB : 2 ≤ B) (m : Mode) (c : Coarse) (p : N
   have hp0 : p ≠ 0 := by omega
   have hσ0 : σ ≠ 0 := by rcases hσ with h | h <;> subst h <;> omega
   unfold reprRoundSum
+  try simp only [shlDigits_eq, shrDigits_eq]
   simp only [hp0, if_false]
   generalize p + (if isSub = true then 1 else 0) = rndP at *
   by_cases h1 : digitsI B l = rndP
@@ -88,6 +89,7 @@ theorem reprAddLargeSmall_far_contract (B : Nat) (hB : 2 ≤ B) (m : Mode) (c : 
   have hB0 : 0 < B := by omega
   have hp0 : p ≠ 0 := by omega
   unfold reprAddLargeSmall
+  try simp only [shlDigits_eq, shrDigits_eq]
   simp only [hp0, ne_eq, not_false_eq_true, true_and, hfar, and_self, if_true]
   -- the stand-in
   have hσ : rs * sgn rhs.signif = 1 ∨ rs * sgn rhs.signif = -1 := by
